@@ -18,9 +18,9 @@ EVENTIDS = [0x040c0004, 0x040d0004, 0x03010090, 0x07010004, 0x01400000, 0xff0000
 SYMS = [(t, e) for t in TIDS for e in EVENTIDS]
 CLASSES = [1, 3, 4, 7, 0xff]
 SUBCLASSES = [0x40c, 0x40d, 0x301, 0x140]
-STR = {'msg': 1, 'A': 2, 'B': 3}
+STR = {'msg': 1, 'A': 2, 'B': 3, 'AB': 4}    # one process name contains another; so does one pid's decimal form (100 / 10)
 LOGS = [  # (tid, pid, process-name index or None)
-    (1, 10, 2), (2, 20, 3), (1, 20, 3), (0, 10, None), (2, 10, None), ((1 << 32) + 1, 10, 2),
+    (1, 10, 2), (2, 20, 3), (1, 100, 4), (0, 10, None), (2, 10, None), ((1 << 32) + 1, 10, 2),
 ]
 
 
@@ -144,13 +144,21 @@ def judge_reconfigure(stream, cfgs, first_traces):
     blob, recs = container('v2', stream, ())
     f = PyKdebugParser()
     f.color = False
-    if first_traces:
+    if first_traces is True:
         f.filter_tid, f.filter_class, f.filter_subclass = cfgs[0]
         list(f.traces(io.BytesIO(blob)))
     for step, (T, C, S) in enumerate(cfgs):
         f.filter_tid, f.filter_class, f.filter_subclass = T, C, S
         try:
-            got = [obs_event(e) for e in f.kevents(io.BytesIO(blob))]
+            if first_traces == 'lazy':
+                # the listing is requested, then (the caller's settings untouched) other requests run to their end on the same
+                # object, and only then is the listing read
+                g = f.kevents(io.BytesIO(blob))
+                list(f.traces(io.BytesIO(blob)))
+                list(f.callstacks(io.BytesIO(blob)))
+                got = [obs_event(e) for e in g]
+            else:
+                got = [obs_event(e) for e in f.kevents(io.BytesIO(blob))]
         except Exception as ex:
             return ('kevents-raised-after-reconfiguration:' + type(ex).__name__, {'step': step, 'error': repr(ex)[:200]})
         exp = []
@@ -175,7 +183,7 @@ class C12(Check):
             'records over 5 (tid,pid,process) shapes; x filter configurations: filter_tid in {None,0,1,2,9} x filter_class in '
             'all lists of <=2 over {1,3,4,7,0xff} (duplicates, tuple type) x filter_subclass in all lists of <=2 over '
             '{0x40c,0x40d,0x301,0x140} (v2: full product for the tid/class/subclass filters; v3: class/subclass reduced to 6x4, '
-            'process filter in {None,name,pid-string,other}). Plus the command-line tool (kevents --tid/-cf/-sf in decimal and 0x form; logs --tid/--process) against the same reference. Plus request histories: all sequences of 3 filter configurations (7 kinds) applied in turn to ONE parser object, optionally after a traces() request, on 3 streams - each listing must equal the reference for its own configuration. Oracle: listing == reference comprehension over the independent '
+            'process filter in {None,name,pid-string,other}). Plus the command-line tool (kevents --tid/-cf/-sf in decimal and 0x form; logs --tid/--process) against the same reference. Plus request histories: all sequences of 3 filter configurations (7 kinds) applied in turn to ONE parser object, optionally after a traces() request, or with every listing requested first and read only after a traces() and a callstacks() request ran to their end on the same object, on 3 streams - each listing must equal the reference for its own configuration. Oracle: listing == reference comprehension over the independent '
             'decode; logs never among events and vice versa. non-trivial = the event filter removes at least one and keeps at least '
             'one record. states = distinct filter configurations; transitions = parses.')
     assumptions = ('configuration x history product is complete within the stated alphabets',)
@@ -203,9 +211,9 @@ class C12(Check):
         for stream in streams:
             for rest in itertools.product(range(len(RECONF)), repeat=2):
                 cfgs = [RECONF[first]] + [RECONF[i] for i in rest]
-                for first_traces in (False, True):
+                for first_traces in (False, True, 'lazy'):
                     bad = judge_reconfigure(stream, cfgs, first_traces)
-                    acc.case(nontrivial=True, transitions=len(cfgs) + first_traces, state=h64(repr(cfgs[-1])))
+                    acc.case(nontrivial=True, transitions=len(cfgs) + (3 * len(cfgs) if first_traces == 'lazy' else int(first_traces)), state=h64(repr(cfgs[-1])))
                     if bad:
                         acc.violation(bad[0], {'kind': 'reconf', 'stream': list(stream), 'cfgs': [[c[0], list(c[1]), list(c[2])] for c in cfgs],
                                                'types': [[type(c[1]).__name__, type(c[2]).__name__] for c in cfgs],
